@@ -174,6 +174,7 @@ fn main() {
                 budget_ms: args.u64("budget-ms", 0),
                 families: fams,
                 opts: conc::GenOpts {
+                    plan: args.get("plan").map(conc::parse_plan),
                     fl: match args.get("fl") {
                         Some("broadcast") => Some(api::Flavour::Broadcast),
                         Some("mpmc") => Some(api::Flavour::Mpmc),
